@@ -51,10 +51,16 @@ type findingSpec struct {
 	kind  int  // 0 no advisory, 1 advisory without ID, 2 ID "A", 3 ID "B"
 	title byte // symbolic
 	sev   bool // severity pointer present
+	stale bool // arrives with a non-empty Detectors field
 }
 
 func (s findingSpec) build(extra string) *detector.Finding {
-	f := &detector.Finding{Extra: extra}
+	// every finding names its own target location; a finding may arrive with a stale Detectors
+	// field (e.g. replayed from an earlier result), which the core library overwrites
+	f := &detector.Finding{Extra: extra, Target: &detector.TargetDetails{Location: []string{"loc-" + extra}}}
+	if s.stale {
+		f.Detectors = []string{"stale-detector"}
+	}
 	if s.kind == 0 {
 		return f
 	}
@@ -90,6 +96,10 @@ func VerifDetectors() {
 			nWithPURL++
 		}
 	}
+	// 0: distinct free texts; 1: all findings of a detector share their free text (they differ in
+	// their target only); 2: each detector's first finding arrives with a stale Detectors field
+	variant := verifrt.Choice("finding-variant", 3)
+	sameExtra := variant == 1
 	var specs [][]findingSpec
 	var dets []*fake.Detector
 	var detErr []bool
@@ -98,12 +108,12 @@ func VerifDetectors() {
 		var fs []findingSpec
 		n := verifrt.Choice("nfindings", nFind+1)
 		for k := 0; k < n; k++ {
-			fs = append(fs, findingSpec{kind: verifrt.Choice("kind", 4), title: verifrt.Byte("title"), sev: verifrt.Choice("sev", 2) == 1})
+			fs = append(fs, findingSpec{kind: verifrt.Choice("kind", 4), title: verifrt.Byte("title"), sev: verifrt.Choice("sev", 2) == 1, stale: variant == 2 && k == 0})
 		}
 		specs = append(specs, fs)
 		fails := verifrt.Choice("detector-error", 2) == 1
 		detErr = append(detErr, fails)
-		name := string(rune('p' + d))
+		name := string(rune('q' - d)) // detectors run in the reverse of their names' order, so sorting has work to do
 		fs2 := fs
 		det := &fake.Detector{DetName: name}
 		det.OnScan = func(_ context.Context, _ *scalibrfs.ScanRoot, px *packageindex.PackageIndex) ([]*detector.Finding, error) {
@@ -129,7 +139,12 @@ func VerifDetectors() {
 			}
 			var out []*detector.Finding
 			for k, s := range fs2 {
-				out = append(out, s.build(name+string(rune('0'+k))))
+				f := s.build(name + string(rune('0'+k)))
+				if sameExtra {
+					// same free text for all findings of the detector: they differ in their target only
+					f.Extra = name
+				}
+				out = append(out, f)
 			}
 			if fails {
 				return out, errDet
@@ -197,13 +212,18 @@ func VerifDetectors() {
 	}
 	verifrt.Reach("consistent")
 	verifrt.Assert(len(res.Inventory.Findings) == total, "every returned finding appears in the result")
+	// documented order: by advisory reference, then by the free-text field
+	for i := 0; i+1 < len(res.Inventory.Findings); i++ {
+		a, b := res.Inventory.Findings[i], res.Inventory.Findings[i+1]
+		verifrt.Assert(a.Adv.ID.Reference < b.Adv.ID.Reference || (a.Adv.ID.Reference == b.Adv.ID.Reference && a.Extra <= b.Extra), "findings are emitted sorted by advisory reference, then extra")
+	}
 	for d, fs := range specs {
 		name := dets[d].DetName
 		for k := range fs {
-			extra := name + string(rune('0'+k))
+			loc := "loc-" + name + string(rune('0'+k))
 			n := 0
 			for _, f := range res.Inventory.Findings {
-				if f.Extra == extra {
+				if f.Target != nil && len(f.Target.Location) == 1 && f.Target.Location[0] == loc {
 					n++
 					verifrt.Assert(len(f.Detectors) == 1 && f.Detectors[0] == name, "finding is tagged with its detector's name")
 				}
